@@ -326,4 +326,14 @@ def rule_symbol_order_shared(ctx):
     ctx.obls.extend(sub.obls)
 
 
-RULES = [rule_route, rule_pipe, rule_transition, rule_gamma_shared, rule_symbol_order_shared]
+def rule_argument_order_shared(ctx):
+    """which program is the left one and which the right one is the order of the file arguments (C20's single pass over the arguments in
+    the order given, directories sorted inside): forward / backward are claims about that pair"""
+    from . import c20
+    sub = type(ctx)(ctx.prop, ctx.tier, ctx.facts)
+    c20.rule_det3(sub)
+    c20.rule_flow_roles(sub)
+    ctx.obls.extend(sub.obls)
+
+
+RULES = [rule_route, rule_pipe, rule_transition, rule_gamma_shared, rule_symbol_order_shared, rule_argument_order_shared]
